@@ -19,7 +19,7 @@ thread_local! {
     pub static CLONES: RefCell<Vec<(usize, u64, u64)>> = RefCell::new(Vec::new());
 }
 
-pub const NTYPES: usize = 11;
+pub const NTYPES: usize = 12;
 
 pub fn live_inc() {
     LIVE.with(|l| l.set(l.get() + 1));
@@ -395,6 +395,7 @@ pub fn layouts() -> Vec<(usize, usize)> {
         (Layout::new::<ZA>().size(), Layout::new::<ZA>().align()),
         (Layout::new::<ZB>().size(), Layout::new::<ZB>().align()),
         (Layout::new::<TK>().size(), Layout::new::<TK>().align()),
+        (Layout::new::<PB>().size(), Layout::new::<PB>().align()),
     ]
 }
 
@@ -414,6 +415,7 @@ macro_rules! with_type {
             8 => { type $T = $crate::comps::ZA; $body }
             9 => { type $T = $crate::comps::ZB; $body }
             10 => { type $T = $crate::comps::TK; $body }
+            11 => { type $T = $crate::comps::PB; $body }
             _ => panic!("harness: bad type index"),
         }
     };
@@ -519,6 +521,40 @@ tuple_bundle!(T0 0, T1 1, T2 2);
 tuple_bundle!(T0 0, T1 1, T2 2, T3 3);
 tuple_bundle!(T0 0, T1 1, T2 2, T3 3, T4 4);
 
+// ---- 11: PB — a type that is BOTH a bundle (two plain fields: hidden component types 120 = u64 and
+// 121 = u32) and, stored whole, a component.  hecs keys several caches by `TypeId`s of bundle types
+// and of component types; a type living in both namespaces is where those may collide.  No
+// destructor (a derived bundle is taken apart field by field), so like TK it is outside the ledger.
+#[derive(hecs::Bundle, hecs::DynamicBundleClone, Clone)]
+pub struct PB {
+    pub x: u64,
+    pub y: u32,
+}
+impl Comp for PB {
+    const IDX: usize = 11;
+    fn new(s: u64) -> Self {
+        PB { x: s, y: (s as u32) ^ 0x5a5a }
+    }
+    fn serial(&self) -> u64 {
+        if self.y == (self.x as u32) ^ 0x5a5a {
+            self.x
+        } else {
+            CORRUPT
+        }
+    }
+}
+impl StaticBundle for PB {
+    fn types() -> Vec<usize> {
+        vec![120, 121]
+    }
+    fn make(serials: &[u64]) -> Self {
+        PB { x: serials[0], y: serials[1] as u32 }
+    }
+    fn serials(&self) -> Vec<(usize, u64)> {
+        vec![(120, self.x), (121, self.y as u64)]
+    }
+}
+
 // ---- derived bundles (macros/src/bundle.rs): same meaning as the tuple of their fields
 #[derive(hecs::Bundle, hecs::DynamicBundleClone, Clone)]
 pub struct DAB {
@@ -610,16 +646,20 @@ macro_rules! with_bundle {
             31 => { type $T = DAB; $body }
             32 => { type $T = DESZ; $body }
             33 => { type $T = DBA; $body }
+            // PB stored whole (a component), PB taken apart (a bundle of two hidden types), and both mixed
+            34 => { type $T = (PB,); $body }
+            35 => { type $T = PB; $body }
+            36 => { type $T = (A, PB); $body }
             // out-of-contract: a component type named twice (must be rejected by hecs)
-            34 => { type $T = (A, A); $body }
-            35 => { type $T = (B, A, B); $body }
+            37 => { type $T = (A, A); $body }
+            38 => { type $T = (B, A, B); $body }
             _ => panic!("harness: bad bundle menu index"),
         }
     }};
 }
-pub const NBUNDLES: usize = 34;
+pub const NBUNDLES: usize = 37;
 /// menu entries at and above `NBUNDLES` repeat a type
-pub const NBUNDLES_ALL: usize = 36;
+pub const NBUNDLES_ALL: usize = 39;
 
 /// smaller menu for the removed side of `exchange` (keeps monomorphisation count down)
 #[macro_export]
